@@ -22,6 +22,10 @@ CLAIMED = {
     text="proof: Coq theorems (Props/C04.v): the shape-level verdict after both splits is 'linear, constant coefficients' exactly when every term of the canonical right-hand side is constant or a constant times one state variable (independent of term order and of the other shapes); a variable is analytic iff everything reachable from it along dependencies is so recognised and hits neither documented exception (c04_complete, via the worklist gfp theorem). Tie: 7 algebraically equivalent spellings x entry orders of each canonical system, observed analytic set vs the model decided in Coq; probes: an independent differential criterion (sympy.diff on the spelled text + exceptions + closure) and equality of the analytic set across spellings.",
     note="Trusted: Coq kernel/vm_compute; harness; oracle: SymPy expand() canonicalises every spelling (validated per case, not proved); probe oracle sympy.diff/simplify.",
     technique="Coq proof (idempotence of the two-level split, gfp completeness) + spelling correspondence", ref="5/C04"),
+ "C08": dict(
+    text="proof + translator: the list of solver-dictionary keys scanned by the parameter filter is regenerated from /repo on every run and proved to contain update expressions, propagators and initial values, whence (c08_params) a supplied parameter is listed iff any of them refers to it, for every symbol table; the partition gives each state variable to exactly one solver; the numeric update expressions are proved to contain no symbol that is neither a state variable nor a symbol of the user's own right-hand sides. Everything else the property says about the dictionaries (kinds, keys, initial values, symbol closure incl. propagators, configured marker and time-step symbol, parameter values) is checked directly on the returned dictionaries for every accepted generated input x 3 time-step symbols x 3 markers x 4 parameter-block modes.",
+    note="Trusted: Coq kernel/vm_compute; translator (fail-closed); harness (independent parse of the returned strings); analytic update/propagator strings come from the SymPy oracle and are covered by the probe only.",
+    technique="Coq proof over translated code + direct structural checks of every returned dictionary", ref="5/C08"),
  "C10": dict(
     text="proof: Coq theorem (Props/C10.v): in any commutative ring with derivations, d/dx_j of the COMPLETE right-hand side sum_k A_ik x_k + b_i + c_i equals A_ij + d_j c_i for every dimension, which is what the model of get_jacobian_matrix assembles; the pinned tree's variant (summing A_ik without x_k) is proved to lose the linear part. Tie: full-system and numeric-sub-system Jacobians of the implementation evaluated exactly at rational points vs the model inside Coq; probes: exact derivative of the user's right-hand side, and numerical_jacobian vs finite differences of MixedIntegrator.step through the pygsl stand-in.",
     note="Trusted: Coq kernel/vm_compute; harness; sympy.diff modelled by a formal derivative (not proved to be a derivation); cython autowrap and GSL (stand-in) not verified; finite-difference half is a test.",
